@@ -1,6 +1,6 @@
 (** Executable statements of the checker properties on one observation (trace, outcome) of a
     case.  They are evaluated on the *implementation's* observation by the checks (the search
-    for a failing input) and are proved of the model's observation in Proofs/CheckerOracleSound.v.
+    for a failing input); [spec_C11_surface] is proved of the model's observation in Proofs/CheckerSurface.v.
     They use only the declarative vocabulary of Spec/CheckerSpec.v. *)
 From ICV Require Import Base Bind Checker CheckerCase CheckerSpec.
 Open Scope string_scope.
@@ -333,7 +333,32 @@ Section Oracle.
   Definition kw_of_call (res : dict) (kw : dict) : bool :=
     forallb (fun kv => match dict_get res (fst kv) with Some w => pv_eqb (snd kv) w | None => true end) kw.
 
+  (** the library's own TypeError ("the arguments of the condition have not been set", a call the function
+      cannot bind, a reserved name) needs a reason that can be read off the declarations and the call:
+      every parameter a contract names and the call binds is available to it, whichever contracts were
+      evaluated before *)
+  Definition available (is_post : bool) (a : string) : bool :=
+    dict_has resolved a || (is_post && (String.eqb a "result" || (String.eqb a "OLD" && negb (is_nil snaps)))).
+  Definition needs_unavailable (is_post : bool) (x : contract) : bool :=
+    negb (forallb (available is_post) (cmandatory x))
+    || match cerror x with
+       | EFactory _ emand => negb (forallb (available is_post) emand)
+       | _ => false
+       end.
+  Definition legit_type_error (t : list event) : bool :=
+    dict_has kwargs "_ARGS" || dict_has kwargs "_KWARGS"
+    || (negb (is_nil post) && (dict_has resolved "result" || dict_has resolved "OLD"))
+    || match pybind s args kwargs with None => true | Some _ => false end
+    || existsb (needs_unavailable false) (List.concat pre ++ invs_before ++ invs_after)
+    || existsb (needs_unavailable true) post
+    || existsb (fun sn => negb (forallb (dict_has resolved) (sargs sn))) snaps
+    || existsb (fun e => match e with
+                         | EvError k kw => match u_error U k kw with ERetOther => true | _ => false end
+                         | _ => false
+                         end) t.
+
   Definition spec_C05_call (t : list event) (r : pv + exn) : bool :=
+    match r with inr (XLib "TypeError" _) => legit_type_error t | _ => true end &&
     forallb (fun e =>
                match e with
                | EvCond RPre _ kw _ | EvCapture _ kw _ => kw_of_call resolved kw
